@@ -499,7 +499,8 @@ def run_tlc(work, module, cfg, workers=8, timeout=600, simulate=None, extra=None
     cmd = ["timeout", str(timeout), "java", "-XX:+UseParallelGC"]
     if heap:
         cmd.append("-Xmx" + heap)
-    cmd += ["-Xss64m", "-cp", "/opt/veriftools/tla/tla2tools.jar:/opt/veriftools/tla/CommunityModules-deps.jar",
+    # TLC's per-run temporary directory goes into the scratch copy (removed with it), not into /tmp
+    cmd += ["-Djava.io.tmpdir=" + d, "-Xss64m", "-cp", "/opt/veriftools/tla/tla2tools.jar:/opt/veriftools/tla/CommunityModules-deps.jar",
             "tlc2.TLC", "-workers", str(workers), "-metadir", os.path.join(d, "meta"), "-config", "run.cfg",
             "-maxSetSize", "100000000"]
     if not deadlock:
